@@ -683,8 +683,20 @@ func callWorker(req N) (resp N) {
 		return res
 	})
 	opts := []risor.Option{risor.WithConcurrency(), risor.WithLocalImporter(modDir), risor.WithGlobals(globals)}
-	if src == "withos" || src == "withoswarm" || src == "withosvm" || src == "withosafterctx" || src == "withosonce" {
+	if src == "withos" || src == "withoswarm" || src == "withosvm" || src == "withosafterctx" || src == "withosonce" || src == "withosshared" {
 		opts = append(opts, risor.WithOS(host))
+	}
+	if src == "withosshared" {
+		// the host keeps ONE set of default globals (module objects) for all its evaluations: an evaluation under
+		// ANOTHER OS used them first and touched the standard streams of the os module
+		shared := risor.DefaultGlobals()
+		otherOS := ros.NewVirtualOS(baseCtx, ros.WithStdout(ros.NewBufferFile(nil)),
+			ros.WithEnvironment(map[string]string{"VERIF_SENTINEL": "OTHER-env"}), ros.WithCwd("/"))
+		if _, werr := risor.Eval(baseCtx, "os.stdout.write(\"w\")\nos.stderr.write(\"w\")\nos.stdin\n1",
+			risor.WithoutDefaultGlobals(), risor.WithGlobals(shared), risor.WithOS(otherOS)); werr != nil {
+			return N{"k": "nosandbox", "msg": "warm-up: " + werr.Error()}
+		}
+		opts = append([]risor.Option{risor.WithoutDefaultGlobals(), risor.WithGlobals(shared)}, opts...)
 	}
 	rec.add(event{E: "start", K: src})
 
